@@ -146,6 +146,10 @@ func (x *Exec) solveAll(cfg solveCfg) {
 		if o.Result != "" {
 			continue
 		}
+		if syntacticallyAssumed(o) {
+			o.Result, o.Solver = "unsat", "syntactic (the goal is literally one of the hypotheses)"
+			continue
+		}
 		text := x.queryText(o, prelude, false)
 		h := fmt.Sprintf("%x", sha1.Sum([]byte(text)))
 		j, ok := byHash[h]
